@@ -101,4 +101,12 @@ theorem commonGrid_eq (mn mx dw : ℚ) (h : 0 ≤ gridNum mn mx dw) :
 theorem interpMin_eq (a b : ℚ) : Gen.interpMin a b = min a b := rfl
 theorem interpMax_eq (a b : ℚ) : Gen.interpMax a b = max a b := rfl
 
+theorem gridNum_pos (mn mx dw : ℚ) (hdw : 0 < dw) (h : gridTol dw < mx - mn) : 1 ≤ gridNum mn mx dw := by
+  rw [gridNum_eq]
+  have : ((0 : Int) : ℚ) < (mx - mn - gridTol dw) / dw := by
+    simp only [Int.cast_zero]; apply div_pos (by linarith) hdw
+  have := Rat.lt_ceil_iff.mpr this
+  omega
+
+
 end Lentil.Spec
